@@ -50,8 +50,8 @@ for d in sorted(glob.glob(os.path.join(V, 'seeded', 'C*-*'))):
     rows12.append(f"| {m['id']} | {m['change']} | {by} | {rp} | {when} |")
 rows12.append('')
 rows12.append(f'{n} of {tot} seeded changes are caught on the current tree.')
-def rnd(i): return 1 if i.endswith('-1') or i.endswith('-2') else 2
-for r in (1, 2):
+def rnd(i): return (int(i.split('-')[1]) + 1) // 2
+for r in (1, 2, 3):
     ids = [json.load(open(os.path.join(d, 'meta.json')))['id'] for d in sorted(glob.glob(os.path.join(V, 'seeded', 'C*-*')))]
     ids = [i for i in ids if rnd(i) == r]
     first = [i for i in ids if i not in AFTER]
